@@ -199,3 +199,30 @@ def shape_wrappers(model):
     nested = dataclasses.make_dataclass("Nested" + model.__name__, [("inner", Optional[model], field(default=None, metadata={"type": "Element"}))])
     inlist = dataclasses.make_dataclass("InList" + model.__name__, [("items", List[model], field(default_factory=list, metadata={"type": "Element"}))])
     return nested, inlist
+
+
+# -- inheritance across namespaces (C03 inherited_namespaces) --------------------------------------------
+@dataclass
+class NBase:
+    class Meta:
+        namespace = "urn:base"
+
+    name: Optional[str] = field(default=None, metadata={"type": "Element"})
+    tags: List[str] = field(default_factory=list, metadata={"type": "Element", "name": "tag", "wrapper": "tags"})
+    code: Optional[str] = field(default=None, metadata={"type": "Attribute", "namespace": "urn:base"})
+
+@dataclass
+class NMid(NBase):
+    class Meta:
+        namespace = "urn:mid"
+
+    level: Optional[int] = field(default=None, metadata={"type": "Element"})
+
+@dataclass
+class NLeaf(NMid):
+    class Meta:
+        namespace = "urn:leaf"
+
+    extra: Optional[str] = field(default=None, metadata={"type": "Element"})
+    name2: Optional[str] = field(default=None, metadata={"type": "Element", "namespace": "urn:own"})
+
